@@ -14,8 +14,9 @@
 #include "c01_common.h"
 
 typedef struct { int kind, fs, fec; const unsigned char *p; int len; char tag[96]; } mop_t;   /* kind: 0 dec16,1 dec24,2 decf (p==NULL: plc) */
-typedef struct { const char *name; int proj, Fs, ch, S, coupled, F25, sz; unsigned char map[8]; unsigned char *fresh; mop_t *H; int nH; mop_t *A; int nA; } lay_t;
+typedef struct { const char *name; int proj, Fs, ch, S, coupled, F25, sz; unsigned char map[8]; unsigned char *fresh; mop_t *H; int nH; mop_t *A; int nA; unsigned char *bp[3]; int bl[3]; char nmbuf[64]; } lay_t;
 static lay_t LY[12]; static int nlay;
+static lay_t BG[48]; static int nbig;      /* large layouts: sized to the limits the API accepts */
 static corpus C;
 static unsigned char g_foa_matrix[64]; static int g_foa_msize;
 static cpkt *g_projpk; static int g_nprojpk;
@@ -56,7 +57,7 @@ static int run_ms(const lay_t *L,void *d,const char *ctx,int api,const unsigned 
          if (ret!=D) FAIL("valid_framing_count",CALLDESC " announced=%ld",CALLARGS,D);
          else if (ms_lastdur(L,d,&dur)!=OPUS_OK||dur!=D) FAIL("valid_framing_last_duration",CALLDESC " announced=%ld last_packet_duration=%d",CALLARGS,D,(int)dur); } }
    if (ret>0){ opus_int32 dur=-1; uint64_t h; ms_lastdur(L,d,&dur); if(dur!=ret) MC_INC(c_adv_lastdur);
-      h=mc_mix(mc_mix((uint64_t)(L-LY),api),mc_mix(fec,ret)); h=mc_mix(h,(p&&len>0)?p[0]:0x1FF); h=mc_mix(h,len>3?4:len);
+      h=mc_mix(mc_mix(mc_hash(L->name,strlen(L->name),L->Fs),api),mc_mix(fec,ret)); h=mc_mix(h,(p&&len>0)?p[0]:0x1FF); h=mc_mix(h,len>3?4:len);
       if (mc_set_add(obs,h) && (h&255)==0) mc_sample("layout=%s Fs=%d %s | %s(len=%d,frame_size=%d,fec=%d) pkt=%s -> n=%d (last_packet_duration=%d)",L->name,L->Fs,ctx,an,len,fs,fec,(p&&len>0)?mc_hex(p,len>48?48:len):"-",ret,(int)dur); }
    return ret;
 }
@@ -119,6 +120,27 @@ static void alpha_item(long it,void *vctx){
    }
 }
 
+/* ------------------------------------------------------------------ large layouts.
+ * Every stack / VLA allocation in the decode entry points is sized by frame_size x channels or by the number of streams, so
+ * the layouts are pushed to what the API accepts: 255 channels on one stream, 255 mono streams, 127 coupled + 1 mono, and a
+ * projection decoder for every ambisonics order whose (n+1)^2 or (n+1)^2+2 channels the create/init functions accept.
+ * Depth is kept small (fresh object, and the object after one all-streams packet); calls = concealment / normal / FEC
+ * on all three sample formats x frame sizes up to 120 ms + 2.5 ms and one second, under the default stack limit, with
+ * exact-size heap output blocks. item = (layout, state, call). */
+#define BIG_NCALL 66
+static const char *const BPN[3]={"all-streams silkNB20m","all-streams hybFB20m","all-streams toc-only 48"};
+static void big_item(long it,void *vctx){
+   int call=(int)(it%BIG_NCALL), stt=(int)((it/BIG_NCALL)%2), li=(int)(it/BIG_NCALL/2); const lay_t *L=&BG[li]; int q=L->F25,api=call%3,k=call/3,fs,fec=0,pk=-1; char ctx[160]; (void)vctx;
+   /* k: 0..4 concealment sizes; 5..16 three packets x 4 sizes; 17..21 FEC sizes */
+   if (k<5){ static const int m[5]={1,8,48,49,0}; fs=m[k]?m[k]*q:L->Fs; }
+   else if (k<17){ static const int m[4]={7,8,49,0}; pk=(k-5)/4; fs=m[(k-5)%4]?m[(k-5)%4]*q:L->Fs; }
+   else { static const int m[5]={8,16,49,0,-1}; pk=0; fec=1; fs=m[k-17]>0?m[k-17]*q:(m[k-17]==0?L->Fs:8*q+1); }
+   need_work(L->sz); memcpy(g_work,L->fresh,L->sz);
+   if (stt){ int qq=g_quiet; g_quiet=1; run_ms(L,g_work,"",2,L->bp[0],L->bl[0],48*q,0); g_quiet=qq; }
+   snprintf(ctx,sizeof ctx,"%s%s%s",stt?"hist=[f:all-streams silkNB20m]":"fresh",pk>=0?"; packet=":"",pk>=0?BPN[pk]:"");
+   run_ms(L,g_work,ctx,api,pk>=0?L->bp[pk]:NULL,pk>=0?L->bl[pk]:0,fs,fec);
+}
+
 /* ------------------------------------------------------------------ alphabet construction */
 static int find_pkt(const char *name,int pos){ int s; for(s=0;s<C.ns;s++) if(!strcmp(C.s[s].name,name)){ if(pos<C.s[s].n) return C.s[s].first+pos; } fprintf(stderr,"c01: corpus stream '%s' pos %d missing\n",name,pos); exit(2); }
 /* self-delimited re-writing of a standard packet by the harness's own writer */
@@ -160,6 +182,27 @@ static void build_layout(lay_t *L,const char *name,int proj,int Fs,int ch,int S,
    if (L->nH>=8192||L->nA>=4096){ fprintf(stderr,"alphabet too large\n"); exit(2); }
 }
 
+static int init_layout_obj(lay_t *L,const unsigned char *map,unsigned char *matrix,int msize){
+   if (L->proj){ L->sz=opus_projection_decoder_get_size(L->ch,L->S,L->coupled); if(!L->sz) return 0; L->fresh=malloc(L->sz); if(opus_projection_decoder_init((OpusProjectionDecoder*)L->fresh,L->Fs,L->ch,L->S,L->coupled,matrix,msize)!=OPUS_OK){ free(L->fresh); return 0; } }
+   else { L->sz=opus_multistream_decoder_get_size(L->S,L->coupled); if(!L->sz) return 0; L->fresh=malloc(L->sz); if(opus_multistream_decoder_init((OpusMSDecoder*)L->fresh,L->Fs,L->ch,L->S,L->coupled,map)!=OPUS_OK){ free(L->fresh); return 0; } }
+   return 1;
+}
+/* returns 1 if the API accepted the layout */
+static int build_big(const char *name,int proj,int ch,int S,int coupled,const unsigned char *map){
+   lay_t *L=&BG[nbig]; int k,s; static unsigned char mtx[2*255*255]; static unsigned char sd[4096]; static unsigned char toc48[1]={0x48};
+   const unsigned char *src[3]; int srcl[3];
+   memset(L,0,sizeof *L); snprintf(L->nmbuf,sizeof L->nmbuf,"%s",name); L->name=L->nmbuf; L->proj=proj; L->Fs=48000; L->ch=ch; L->S=S; L->coupled=coupled; L->F25=120;
+   if (proj){ int in=S+coupled,r,c; /* identity-like demixing matrix (column-major, ch rows x in columns, little-endian int16): 0.5 on the diagonal, 1/128 elsewhere */
+      if ((long)ch*in*2>(long)sizeof mtx) return 0;
+      for(c=0;c<in;c++) for(r=0;r<ch;r++){ int v=(r==c)?16384:256; mtx[2*(c*ch+r)]=(unsigned char)(v&255); mtx[2*(c*ch+r)+1]=(unsigned char)(v>>8); }
+      if (!init_layout_obj(L,NULL,mtx,ch*in*2)) return 0; }
+   else if (!init_layout_obj(L,map,NULL,0)) return 0;
+   src[0]=C.p[PB[0]].data; srcl[0]=C.p[PB[0]].len; src[1]=C.p[PB[2]].data; srcl[1]=C.p[PB[2]].len; src[2]=toc48; srcl[2]=1;
+   for(k=0;k<3;k++){ int n=to_selfdelim(src[k],srcl[k],sd),len=0; if(n<0){ fprintf(stderr,"c01: big packet build\n"); exit(2); }
+      L->bp[k]=malloc((size_t)(S-1)*n+srcl[k]); for(s=0;s<S-1;s++){ memcpy(L->bp[k]+len,sd,n); len+=n; } memcpy(L->bp[k]+len,src[k],srcl[k]); len+=srcl[k]; L->bl[k]=len;
+      if (ms_model(L->bp[k],len,S,48000)!=960){ fprintf(stderr,"c01: big packet model\n"); exit(2); } }
+   nbig++; return 1;
+}
 static void make_projection_packets(void){
    int streams=0,coupled=0,err=0,i; opus_int32 msz=0; OpusProjectionEncoder *e=ref_opus_projection_ambisonics_encoder_create(48000,4,3,&streams,&coupled,OPUS_APPLICATION_AUDIO,&err); siggen g; short pcm[960*4]; unsigned char out[4000];
    if(!e||streams!=2||coupled!=2){ fprintf(stderr,"c01: projection encoder create failed (%d, %d streams, %d coupled)\n",err,streams,coupled); exit(2); }
@@ -180,7 +223,7 @@ int main(int argc,char **argv){
    static const unsigned char m1[1]={0}, m2[2]={0,1}, m3[3]={0,1,2}, m7[7]={0,4,1,255,2,3,0}, m4[4]={0,1,2,3};
    static unsigned char mtx3[18];
    mc_init(argc,argv,"C01","ms"); g_replay=MC.only_item; exact_init();
-   g_depth=(int)mc_arg("--depth",MC.tier?3:2); stages=(int)mc_arg("--stages",7);
+   g_depth=(int)mc_arg("--depth",MC.tier?3:2); stages=(int)mc_arg("--stages",15);
    c_trans=mc_counter("transitions"); c_eval=mc_counter("evaluations"); c_decoded=mc_counter("calls_returning_samples"); c_rejected=mc_counter("calls_returning_error");
    c_valid=mc_counter("valid_framing_clause_checked"); c_adv_lastdur=mc_counter("advisory_last_duration_differs"); c_bfs_trans=mc_counter("bfs_transitions");
    st=mc_counter("states"); dn=mc_counter("distinct_nontrivial");
@@ -200,11 +243,20 @@ int main(int argc,char **argv){
    build_layout(&LY[nlay++],"proj-foa-2s2c-4ch",1,48000,4,2,2,m4,g_foa_matrix,g_foa_msize);
    build_layout(&LY[nlay++],"proj-2s1c-3ch",1,24000,3,2,1,m3,mtx3,18);
    if (MC.tier){ build_layout(&LY[nlay++],"ms-2s1c-3ch",0,12000,3,2,1,m3,NULL,0); build_layout(&LY[nlay++],"ms-3s2c-7ch-map{0,4,1,255,2,3,0}",0,48000,7,3,2,m7,NULL,0); build_layout(&LY[nlay++],"proj-foa-2s2c-4ch",1,16000,4,2,2,m4,g_foa_matrix,g_foa_msize); }
+   { static unsigned char mp[255]; char nm[64]; int n,rej=0; char rejs[400]; int rn=0; rejs[0]=0;
+     for(i=0;i<255;i++) mp[i]=0;            build_big("big-ms-1s0c-255ch(all->stream0)",0,255,1,0,mp);
+     for(i=0;i<255;i++) mp[i]=(unsigned char)i; build_big("big-ms-255s0c-255ch",0,255,255,0,mp); build_big("big-ms-128s127c-255ch",0,255,128,127,mp);
+     for(i=0;i<255;i++) mp[i]=(unsigned char)(i%3==2?255:(i&1)); build_big("big-ms-1s1c-255ch(L,R,muted...)",0,255,1,1,mp);
+     for(n=0;n<=14;n++){ int v; for(v=0;v<2;v++){ int ch=(n+1)*(n+1)+2*v; if(ch>255) continue; snprintf(nm,sizeof nm,"big-proj-order%d%s-%dch-%ds%dc",n,v?"+2":"",ch,(ch+1)/2,ch/2);
+        if(!build_big(nm,1,ch,(ch+1)/2,ch/2,NULL)){ rej++; if(rn<350) rn+=snprintf(rejs+rn,sizeof rejs-rn,"%d ",ch); } } }
+     mc_info("large layouts accepted by the API: %d (projection channel counts rejected by get_size/init: %s)",nbig,rejs); }
    for(i=0;i<nlay;i++) mc_info("layout %d %s Fs=%d: image=%d bytes, |H|=%d, built alphabet=%d",i,LY[i].name,LY[i].Fs,LY[i].sz,LY[i].nH,LY[i].nA);
    if((stages&4)&&MC.tier){ S3L[nS3++]=2; S3L[nS3++]=4; }
    long n_small=(long)nlay*256, n_alpha=(long)nlay*4096, n_s3=(long)nS3*65536;
    long b_alpha=stage_reserve(n_alpha), b_small=stage_reserve(n_small), b_s3=stage_reserve(n_s3);
+   long n_big=(long)nbig*2*BIG_NCALL, b_big=stage_reserve(n_big);
    g_t=now_s();
+   if(stages&8){ stage_par_at(b_big,n_big,big_item,NULL,0); stage_info("large-layouts",n_big); }
    for(i=0;i<nlay;i++) htab_put(T_states,mc_hash(LY[i].fresh,LY[i].sz,0xC01500+i),h_root(i));
    for(d=0;d<g_depth;d++){ bfs_ctx b; char nm[32]; b.front=htab_collect(T_states,d,&b.n); b.last=(d==g_depth-1);
       snprintf(nm,sizeof nm,"bfs_level%d_states",d); lvl[d]=mc_counter(nm); *lvl[d]=b.n;
